@@ -142,6 +142,17 @@ def run(ctx):
                 cands.add(d_)
     if len(cands) > 1:
         cands = {c_ for c_ in cands if c_.rsplit(".", 1)[-1].startswith("_")} or cands      # a private helper, not the public API
+    if len(cands) > 1:
+        # several two-argument helpers: the averaging one returns (formula, cell volume, charge) for a string of codes
+        keep = set()
+        for c_ in sorted(cands):
+            try:
+                r_ = I.call(I.global_name(*c_.split(".", 1)), ["AB", dict(res)], {})
+            except (SymRaise, AnalysisError):
+                continue
+            if isinstance(r_, tuple) and len(r_) == 3:
+                keep.add(c_)
+        cands = keep or cands
     if len(cands) != 1:
         raise AnalysisError(f"averaging helper of fasta not identified (candidates {sorted(cands)})")
     ca_q = sorted(cands)[0]
